@@ -931,25 +931,80 @@ def cursor_rule(ctx, P, fns):
             ctx.check(r, okb or oka, key(f, "advance#%d:%s" % (n, amount[:24])), f.where(s["node"]), "the cursor is advanced by `%s` without a comparison against `%s` before it is used again" % (amount, endp))
 
 
+def _is_end(f, i, depth=0):
+    """the expression denotes the end of the buffer holding the file's data: the `end` member of the
+    mapped file, or a local every definition of which is such an end or `base + size` of a buffer
+    allocated with that size"""
+    j = f.strip(i)
+    nd = f.nodes[j]
+    if nd["k"] == "Member":
+        return nd.get("field") == "end" and "s3file" in (nd.get("rec") or "")
+    if nd["k"] != "DeclRef" or depth > 2:
+        return False
+    name = f.canon(j, subst=False)
+    defs = [s_["rhs"] for s_ in paths.stores(f) if s_["path"] == name and s_["op"] == "="]
+    defs += [f.ch(v)[0] for v in f.find("Var") if f.nodes[v].get("name") == name and f.ch(v)]
+    if not defs:
+        return False
+    for d in defs:
+        if d is None:
+            return False
+        if _is_end(f, d, depth + 1):
+            continue
+        dj = f.strip(d)
+        dn = f.nodes[dj]
+        ok = False
+        if dn["k"] == "Bin" and dn["op"] == "+" and "*" in dn.get("t", ""):
+            a, b = dn["ch"]
+            for (base, size) in ((a, b), (b, a)):
+                bc = f.canon(base, subst=False)
+                sc = f.canon(size, subst=False)
+                for s_ in paths.stores(f):
+                    if s_["path"] == bc and s_["rhs"] is not None:
+                        r_ = f.strip(s_["rhs"])
+                        if f.k(r_) == "Call" and f.nodes[r_].get("callee") in ALLOCS and any(f.canon(x, subst=False) == sc for x in f.args(r_)):
+                            ok = True
+        if not ok:
+            return False
+    return True
+
+
+def _region_tests(f):
+    """truncation tests: relational branch conditions with the data end on one side and a pointer sum on
+    the other; yields (cond, sum node, operand canons, pointer type)"""
+    out = []
+    for (s0, d0, c, pol) in f.cfg.cond_edges():
+        if not pol:
+            continue
+        j = f.strip(c)
+        nd = f.nodes[j]
+        if nd["k"] != "Bin" or nd["op"] not in ("<", ">", "<=", ">="):
+            continue
+        a, b = nd["ch"]
+        for (lhs, rhs) in ((a, b), (b, a)):
+            if not _is_end(f, rhs):
+                continue
+            for i in f.walk(lhs):
+                n2 = f.nodes[i]
+                if n2["k"] == "Bin" and n2["op"] == "+" and "*" in n2.get("t", ""):
+                    out.append((c, i, n2))
+    return out
+
+
 def region_rule(ctx, P, fns):
     r = ctx.rule("REGION.end", "a truncation test `region + count > end` computes the end of the region in the element type in which the region is laid out: the same base + count elsewhere in the function (start of the next region, loop limit) has the same pointer type", floor=4)
+    r2 = ctx.rule("REGION.checked", "a region pointer that is tested against the end of the file's data is tested on every path before it is dereferenced: no configuration (byte order, allocation mode) reaches an element access without having passed the test", floor=4)
     for f in P.repo_functions():
         if f.name not in CURSOR_FUNCS:
             continue
         tests = []
         in_tests = set()
-        for (s0, d0, c, pol) in f.cfg.cond_edges():
-            if not pol:
-                continue
-            src = f.canon(c, subst=False)
-            if "->end" not in src:
-                continue
-            for i in f.walk(c):
-                nd = f.nodes[i]
-                if nd["k"] == "Bin" and nd["op"] == "+" and "*" in nd.get("t", ""):
-                    ops = frozenset(f.canon(x, subst=False) for x in nd["ch"])
-                    tests.append((i, ops, nd["t"].replace("const ", "").strip()))
-                    in_tests.update(f.walk(i))
+        conds = {}
+        for (c, i, nd) in _region_tests(f):
+            ops = frozenset(f.canon(x, subst=False) for x in nd["ch"])
+            tests.append((i, ops, nd["t"].replace("const ", "").strip()))
+            in_tests.update(f.walk(i))
+            conds.setdefault(c, []).append((i, nd))
         if not tests:
             continue
         ctx.touch(f)
@@ -965,6 +1020,35 @@ def region_rule(ctx, P, fns):
                 continue
             bad = [(j, t2) for (j, t2) in others if t2 != t]
             ctx.check(r, not bad, key(f, "end-of:%s" % "+".join(sorted(ops))[:40]), f.where(i), "the truncation test computes `%s` as `%s` but the region is laid out as `%s` (line %s): the test measures the region in the wrong unit" % (" + ".join(sorted(ops)), t, bad[0][1] if bad else "", f.line(bad[0][0]) if bad else ""))
+        # every element access through a tested region pointer lies behind its test
+        for c, sums in conds.items():
+            for (i, nd) in sums:
+                ptrs = [x for x in nd["ch"] if "*" in f.nodes[f.strip(x, casts=False)].get("t", "") or "*" in f.nodes[x].get("t", "")]
+                if len(ptrs) != 1:
+                    continue
+                pj = f.strip(ptrs[0])
+                if f.k(pj) not in ("DeclRef", "Member", "Subscript"):
+                    continue
+                pc = f.canon(pj, subst=False)
+                defs = [s_ for s_ in paths.stores(f) if s_["path"] == pc and s_["op"] == "=" and paths.always_before(f, c, lambda e, n_=s_["node"]: e == n_)]
+                if not defs:
+                    continue
+                start = defs[-1]["node"]
+                cj = f.strip(c)
+
+                def passed(fn, cc, pol, cj=cj):
+                    return fn.strip(cc) == cj and not pol
+                uses = []
+                for u in f.walk():
+                    un = f.nodes[u]
+                    if un["k"] == "Subscript" or (un["k"] == "Un" and un["op"] == "*") or (un["k"] == "Member" and un.get("arrow")):
+                        b0 = f.strip(f.ch(u)[0])
+                        if f.canon(b0, subst=False) == pc and u not in f.walk(c):
+                            uses.append(u)
+                if not uses:
+                    continue
+                bad = [u for u in uses if f.cfg.path_exists(paths.pos_of(f, start), lambda e, u=u: e == u or u in f.walk(e), removed_edges=set(paths.guard_edges(f, passed)))]
+                ctx.check(r2, not bad, key(f, "checked:%s" % pc), f.where(bad[0] if bad else c), "`%s` is read at line %s on a path that has not passed the truncation test at line %s (the test is conditional on something else): a short file of the other kind is read past the end of its buffer" % (pc, f.line(bad[0]) if bad else "", f.line(c)))
 
 
 def _error_exits(f):
